@@ -9,7 +9,8 @@
 (*  {"ev":"updatomic"}                         queue refreshed (atomic)     *)
 (*  {"ev":"entries"}                           dispatcher read its queue    *)
 (*  {"ev":"setib","w","b"}                     operator: hold/drain/run/any *)
-(*  {"ev":"startcall","c","w","bad":[w..],"qs","qp"}    StartContainer ok  *)
+(*  {"ev":"startcall","c","w","qs","qp"}  StartContainer is being called    *)
+(*        (the held / draining instances are taken from the setib events)   *)
 (*  {"ev":"procstart","c","w","others":[w..]}  exact: process created       *)
 (*  {"ev":"procsnap","c","w","others":[w..]}   sound: process created, the  *)
 (*                                             process tables sampled       *)
@@ -44,7 +45,7 @@ TraceReset ==
     /\ api' = [c \in Ctrs |-> IF c <= Len(Ev.init) THEN [state |-> Ev.init[c], prio |-> 1]
                               ELSE [state |-> "Complete", prio |-> 0]]
     /\ procs' = [w \in Wk |-> {}]
-    /\ ib' = [w \in Wk |-> "run"]
+    /\ ib' = [w \in Wk |-> "run"] /\ ibv' = [w \in Wk |-> 0]
     /\ lk' = {} /\ lkNext' = {} /\ pass' = {}
     /\ ever' = {c \in Ctrs : c <= Len(Ev.init) /\ Ev.init[c] = "Locked"}
     /\ pend' = [c \in Ctrs |-> NoPend]
@@ -56,7 +57,7 @@ TraceNext ==
     \/ IsEvent("updatomic") /\ UpdAtomic
     \/ IsEvent("entries") /\ Entries
     \/ IsEvent("setib") /\ SetIB(Ev.w, Ev.b)
-    \/ IsEvent("startcall") /\ StartCall(Ev.c, Range(Ev.bad), Ev.qs, Ev.qp)
+    \/ IsEvent("startcall") /\ StartCall(Ev.c, Bad, Ev.qs, Ev.qp)
     \/ IsEvent("procstart") /\ ProcStart(Ev.c, Ev.w)
     \/ IsEvent("procsnap") /\ ProcStartSnap(Ev.c, Ev.w, Range(Ev.others))
     \/ IsEvent("startfailed") /\ StartFailed(Ev.c)
